@@ -303,8 +303,9 @@ class Expr:
             return ids[0] if len(ids) == 1 else "phi(" + "|".join(ids) + ")"
         return e.show()
 
-    def strip(self):
-        """drop ref/deref/transparent wrappers at the top"""
+    def strip(self, keep_phi=False):
+        """drop ref/deref/transparent wrappers at the top (keep_phi: do not merge a join whose alternatives print
+        the same — they may be the same call at different sites)"""
         e = self
         while True:
             if e.k in ("ref", "deref"):
@@ -322,7 +323,7 @@ class Expr:
                 e = pv if pv is not None else x
             elif e.k == "field" and e.x["name"] == "0" and e.a[0].k == "downcast" and e.a[0].x["variant"] == "Ok" and e.a[0].a[0].strip().k == "call":
                 e = e.a[0].a[0]  # `match r { Ok(x) => x, Err(e) => return Err(e) }` -> r (the Ok payload of r)
-            elif e.k == "phi" and len({c.show() for c in e.a}) == 1:
+            elif e.k == "phi" and not keep_phi and len({c.show() for c in e.a}) == 1:
                 e = e.a[0]
             elif e.k == "call" and len(e.a) == 2 and e.x["path"].endswith(("::index", "::index_mut")) and e.a[1].strip().k == "agg" and (e.a[1].strip().x.get("adt") or "").endswith("ops::RangeFull"):
                 e = e.a[0]      # v[..] is the whole of v
